@@ -1454,12 +1454,6 @@ class TLSConnection(TLSRecordLayer):
             signature_scheme = certificate_verify.signatureAlgorithm
             self.serverSigAlg = signature_scheme
 
-            signature_context = KeyExchange.calcVerifyBytes((3, 4),
-                                                            srv_cert_verify_hh,
-                                                            signature_scheme,
-                                                            None, None, None,
-                                                            prfName, b'server')
-
             for result in self._clientGetKeyFromChain(certificate, settings):
                 if result in (0, 1):
                     yield result
@@ -1508,6 +1502,12 @@ class TLSConnection(TLSRecordLayer):
                             "advertise or that doesn't match its "
                             "certificate"):
                         yield result
+
+            # only now, with a signature scheme known to be acceptable
+            signature_context = KeyExchange.calcVerifyBytes(
+                (3, 4), srv_cert_verify_hh,
+                certificate_verify.signatureAlgorithm,
+                None, None, None, prfName, b'server')
 
             if signature_scheme in (SignatureScheme.ed25519,
                                     SignatureScheme.ed448,
